@@ -83,8 +83,10 @@ PairOK ==
     /\ (st.ms /\ m # <<>> => (IF KOf(D) = "std" \/ st.m = <<>> THEN st.m = m ELSE Head(st.m) = Head(m)))
                                      \/ Report("matchlist", <<st.m, m>>)
     /\ (st.ms /\ m # <<>> => st.m = m) \/ Report("drift-matchtail", <<st.m, m>>)
-    \* is_start is not fixed by any listed property (a DFA with a single start
-    \* kind flags its dead state as the missing start state): DRIFT only
+    \* the states start_state() hands out answer is_start (the documented contract of the
+    \* trait); what ELSE is flagged as a start state is not fixed by any listed property (a DFA
+    \* with a single start kind flags its dead state as the missing start state): DRIFT only
+    /\ (path = <<>> /\ s = Root => st.st) \/ Report("isstart", <<st.st, s>>)
     /\ ((s = Root => st.st) /\ (st.st => s = Root \/ s = DEAD))
                                      \/ Report("drift-isstart", <<st.st, s>>)
 
